@@ -227,6 +227,8 @@ type Scenario struct {
 	Shutdown int // -1: none; else index of the provider that is shut down by a pseudo thread
 	Lease    time.Duration
 	Residue  bool // C04: run residue probes at the end
+	// HonourCtx: the storage refuses calls whose context has ended (kvs/inmem ignores contexts, networked storages do not)
+	HonourCtx bool
 	// Storage: "" / "inmem" (default) or "redis" (kvs/redis against an in-process miniredis; every Redis command
 	// of every provider's client is a scheduling point, TTLs follow the virtual clock)
 	Storage string
@@ -240,6 +242,9 @@ func (sc *Scenario) String() string {
 		ps[i] = p.String()
 	}
 	s := fmt.Sprintf("topo=%s progs=%s faults=%v", sc.Topo.Name[:1], strings.Join(ps, "|"), sc.Faults)
+	if sc.HonourCtx {
+		s = "ctx-aware " + s
+	}
 	if sc.Storage == "redis" {
 		s = "redis " + s
 	}
@@ -293,7 +298,7 @@ func (sc *Scenario) Build(obs *Obs) func() {
 		provs := make([]dist.LockProvider, sc.Topo.Providers)
 		gates := make([]*Gate, sc.Topo.Providers)
 		for i := range provs {
-			gates[i] = &Gate{Inner: inner(), Name: fmt.Sprintf("p%d", i), Faults: sc.Faults, Calls: &obs.StorageCalls}
+			gates[i] = &Gate{Inner: inner(), Name: fmt.Sprintf("p%d", i), Faults: sc.Faults, HonourCtx: sc.HonourCtx, Calls: &obs.StorageCalls}
 			provs[i] = dist.NewKvsLockProvider(gates[i], "/locks/")
 		}
 		lockers := make([]gsync.Locker, len(sc.Topo.ProviderOf))
